@@ -380,7 +380,10 @@ func init() {
 					counts["cpython-rejects"]++
 				}
 				oracle := "ok"
-				if c.Pinned != "" && v != "ok" {
+				if c.Origin == "pinned" && c.Pinned == "" && v != "ok" {
+					// the healthy pinned module must be accepted: a concrete failing input of C02 itself
+					oracle = fmt.Sprintf("FAIL py-decl pinned=healthy-module-rejected lang=python class=%s format=ir diag=%s module=%s", strings.SplitN(v, ":", 2)[0], v, c02PyEsc(text))
+				} else if c.Pinned != "" && v != "ok" {
 					oracle = fmt.Sprintf("FAIL py-decl pinned=%s lang=python class=%s format=ir diag=%s", c.Pinned, strings.SplitN(v, ":", 2)[0], v)
 				}
 				fmt.Fprintf(out, "pydecl %s %s\t%s %s\t%s\n", c.ID, pkg, strings.ReplaceAll(v, " ", "_"), c02PyEsc(text), oracle)
